@@ -351,4 +351,27 @@ PLANS["C15"] = {
     "assumptions": ["independent reader implements the documented lexer rules (strings with \\n \\t \\\\ \\\" escapes, ; comments)"],
 }
 
+
+def c09_jobs(tier, seed, bin_dir, replay):
+    if replay:
+        return [eggmon(bin_dir, "exec", "replay", seed, tier, extra={"file": replay})]
+    q = tier == "quick"
+    js = shards(bin_dir, "c09", seed, tier, 6000, 240000, extra={"mode": "plain", "fuzz": 20000 if q else 400000})
+    js[0]["argv"] += ["--witness-dir", os.path.join(VERIF, "witnesses/C09")]
+    for mode in ("term", "proofs"):
+        js.append(eggmon(bin_dir, "c09", f"c09-{mode}", seed * 1000 + 77, tier, n=(800 if q else 30000), extra={"mode": mode, "fuzz": 5000 if q else 100000}))
+    return js
+
+
+PLANS["C09"] = {
+    "jobs": c09_jobs,
+    "level": "fault_enumeration",
+    "technique": "differential session monitor (S1;bad;S2 vs S1;S2, one call per command) over 30 kinds of typed mutations and malformed text, panic monitor, text fuzzer; plain, term-encoding and proofs modes",
+    "level_text": "The enumerated dimension is (kind of invalid command x position in a generated valid session x mode). Commands rejected before execution (class read off the egglog::Error variant) must leave outputs, canonical dump and declared tables unchanged and the continuation - which starts by re-declaring the rejected names correctly - must behave identically to the session that never issued the bad command; run-time failures must leave C04's invariants intact and later commands must not panic. A fuzzer feeds random unicode strings, token soup, truncated/corrupted commands and nesting up to depth 400.",
+    "level_note": "Panics are observed with catch_unwind in-process (an abort would kill the child and be reported as inconclusive crash). Invalid UTF-8 cannot be passed through the &str API and is not covered.",
+    "floors": {"quick": {"class_Pre": 4000, "class_Exec": 400, "fuzz_inputs": 50000, "continuation_commands_compared": 30000},
+               "thorough": {"class_Pre": 150000, "class_Exec": 15000, "fuzz_inputs": 1000000, "continuation_commands_compared": 1000000}},
+    "assumptions": ["error class = egglog::Error variant (ParseError, TypeError(s), NoSuchRuleset, CombinedRulesetError, Shadowing, RuleAlreadyExists, DesugarError, UnsupportedProofCommand, SubsumeMergeError, Pop are 'rejected before execution')"],
+}
+
 NOT_APPLICABLE = {}
